@@ -77,7 +77,11 @@ def run_case(ctx, case, do_cert: bool, do_lp: bool) -> None:
     n, values, exact, K, comp = case["n"], case["values"], case["exact"], case["K"], case["computer"]
     game = sut.object_for_case(ctx, case, comp)
     try:
-        sut.set_knowledge(game, values, K)
+        if case.get("ops"):
+            boundcore.apply_ops(game, values, case["ops"])      # reach K through a history (tightness must not depend on it)
+            ctx.count("cases_reached_through_a_history")
+        else:
+            sut.set_knowledge(game, values, K)
         game.compute_bounds()
     except Exception as exc:
         ctx.violation("computer-raised", f"{type(exc).__name__}: {exc} (n={n}, computer={comp}, K={K})", case)
@@ -175,7 +179,8 @@ def run(ctx) -> None:
             for comp in sut.SA_COMPUTERS:
                 if comp == "superadditive" and n >= 7 and rng.random() < 0.7:
                     continue
-                run_case(ctx, {"n": n, "family": fam, "values": values, "exact": exact, "computer": comp, "K": K},
+                run_case(ctx, {"n": n, "family": fam, "values": values, "exact": exact, "computer": comp, "K": K,
+                               "ops": boundcore.make_history(rng, n, K, rng.choice(["walk", "dirty"])) if rng.random() < 0.35 else None},
                          do_cert=rng.random() < (0.5 if n <= 5 else 0.15),
                          do_lp=(n <= 5 and rng.random() < 0.25) or (n == 6 and not quick and rng.random() < 0.03))
                 ctx.count(f"n{n}")
